@@ -335,7 +335,10 @@ public:
                 + ", total population: "
                 + std::to_string(environment_.total_population_at(row, col))
                 + ", susceptibility: "
-                + std::to_string(pest_host_table_->susceptibility(this)) + ")");
+                + (pest_host_table_
+                       ? std::to_string(pest_host_table_->susceptibility(this))
+                       : std::string("not set"))
+                + ")");
         }
         return suitability;
     }
